@@ -76,6 +76,25 @@ def run(tier: str) -> int:
             # equality / hash consistency with an independently constructed twin
             if not (a == twins[j] and hash(a) == hash(twins[j]) and twins[j] in {a} and len({a, twins[j]}) == 1):
                 rep.violation(f"equal references are not interchangeable (==/hash/set): {a}", {"a": str(a)})
+        # references obtained in other ways than the constructor must be interchangeable with constructed ones
+        import pickle
+        nalt = 0
+        for j in range(n):
+            a = objs[j]
+            src = objs[(j * 7 + 3) % n]
+            hash(src)                                  # the source has been used as a key before
+            alts = {"copy(update=...) of a hashed reference": src.copy(update={"group": a.group, "name": a.name, "version": a.version}),
+                    "parse_obj(dict)": PluginRef.parse_obj(a.dict()),
+                    "parse_raw(json)": PluginRef.parse_raw(a.json()),
+                    "pickle round trip of a hashed reference": pickle.loads(pickle.dumps(twins[j]))}
+            for how, b in alts.items():
+                nalt += 1
+                if not (a == b and b == a and hash(a) == hash(b) and b in {a} and a in {b} and len({a, b}) == 1
+                        and a <= b and a >= b and not a < b and not a > b):
+                    rep.violation(f"a reference obtained by {how} is not interchangeable with the constructed equal reference "
+                                  f"{a} (==: {a == b}, hash equal: {hash(a) == hash(b)}, in set: {b in {a}})", {"a": str(a), "how": how})
+                    break
+        rep.parts["references_obtained_otherwise"] = {"checked": nalt}
         # sorting agrees with the exported ascending order
         sh = objs[:]
         rng.shuffle(sh)
